@@ -89,7 +89,7 @@ CHECKS = {
         technique="model-based property testing (rapid): generated Writer programs and produce-fault scripts against an in-memory fake cluster, oracle over the wire journal",
         level_text=("Generated scenarios (1-4 concurrent callers, 1-2 topics x 1-4 partitions, every batch/acks/compression/balancer setting, produce v2..v8) run the real Writer against the fake cluster, "
                     "which injects per-request faults (temporary/permanent codes, dropped before/after apply, cut responses, stalls, leader moves). Oracle over the journal: partition = balancer's choice, "
-                    "nil/WriteErrors[i] == acknowledged, Completion exactly once with the same outcome, no resend after a delivered acknowledgement, no more attempts than MaxAttempts (unset or negative = 10), the balancer is offered exactly 0..n-1 of the message's topic. Brokers advertise Produce up to v0, v1, v2, v3, v5, v7 or v8."),
+                    "nil/WriteErrors[i] == acknowledged, Completion exactly once with the same outcome, no resend after a delivered acknowledgement, no more attempts than MaxAttempts (unset or negative = 10), the balancer is offered exactly 0..n-1 of the message's topic. Brokers advertise Produce up to v0, v1, v2, v3, v5, v7 or v8. Messages may carry explicit times that are not monotonic in submission order; NotEnoughReplicasAfterAppend is among the temporary error codes."),
         level_note="caller interleavings and timers are sampled, not enumerated; trusts the fake broker's produce semantics (DESIGN A.6) and the reference record decoder",
         rule=("case = (cluster layout, writer config, caller programs, fault script per produce request); every 3rd case is built from one of 5 strata (lost ack + retry, permanent error, mixed outcome in one call, async, stalled request). "
               "Non-trivial = at least one fault hit a produce request or two callers shared a partition; distinct by (config class, fault-kind multiset, label set)."),
@@ -154,7 +154,7 @@ CHECKS = {
         level_text=("A generated log (logical records with compaction holes; batches of format 0, 1, 2 with every codec, v1 wrappers with relative offsets, batches starting before / ending after their records, retained empty batches, mixed-format logs) "
                     "is served by the fake broker at fetch v2/v5/v10 with byte limits that force one-batch and truncated responses, optionally dribbled byte by byte. A program of FetchMessage / SetOffset / append steps runs against the real Reader (and bare Conn.ReadBatch) "
                     "while a fault script cuts responses at a chosen byte, injects NotLeader/UnknownTopic/RequestTimedOut/OffsetOutOfRange codes, moves the leader, drops connections, refuses dials or stalls. "
-                    "Every delivered message is compared as it arrives with the model (offset, key, value, headers, ms timestamp, topic, partition); nothing stored may be skipped, nothing delivered twice or out of order."),
+                    "Every delivered message is compared as it arrives with the model (offset, key, value, headers, ms timestamp, topic, partition); nothing stored may be skipped, nothing delivered twice or out of order. Partitions may have an open transaction (last stable offset below the high watermark, reported to every consumer), with the reader positioned exactly at it."),
         level_note="schedules (background fetcher vs. application) are sampled; 'not delivered' is decided by a 10 s watchdog per message on an otherwise idle in-memory broker; trusts the fake broker's fetch semantics (DESIGN A.6)",
         rule=("case = (fetch version, log layout, reader config, start position, program steps, fault script); non-trivial = layout has >= 2 batches and at least one of {hole, head/tail-compacted batch, empty batch, compression, truncated response, fault, SetOffset, append}; "
               "distinct by (version, path, start, byte limit, queue, fault multiset, label set)."),
@@ -218,7 +218,7 @@ CHECKS = {
                     "the controller designated by one of the metadata responses the transport can have been using (from the response matched by a cache probe taken right before the call up to the last one that reached a broker before the request did), "
                     "every group / transaction request at a broker named by a FindCoordinator answer for that key and key space (or the true coordinator); (3) when the cache equals the cluster layout at the start of a call the request really reaches the designated broker; "
                     "(4) after a change the cache shows the new layout within 10xTTL+2 s (later than TTL+300 ms = inconclusive) and from then on requests go to the new leader; "
-                    "(5) the cache content is always one of the responses the brokers gave, moving forward only, and Client.Metadata(topics) equals the topic-filtered content (brokers, controller, partitions with leader/replicas/isr, UNKNOWN_TOPIC_OR_PARTITION marks, request order) of such a response. TestCadence takes the time clause literally with a MetadataTTL of 2-3 s: the leader of a partition moves right after the brokers answered a metadata request of the transport, and a ListOffsets request started TTL + 500 ms later has to reach the new leader first (idle transport, or with traffic for other partitions)."),
+                    "(5) the cache content is always one of the responses the brokers gave, moving forward only, and Client.Metadata(topics) equals the topic-filtered content (brokers, controller, partitions with leader/replicas/isr, UNKNOWN_TOPIC_OR_PARTITION marks, request order) of such a response. TestCadence takes the time clause literally with a MetadataTTL of 2-3 s: the leader of a partition moves right after the brokers answered a metadata request of the transport, and a ListOffsets request started TTL + 500 ms later has to reach the new leader first (idle transport, or with traffic for other partitions). Produce steps are also sent as rawproduce.Request (the routing method of Client.RawProduce)."),
         level_note=("schedules of the background refresh are sampled, not enumerated; stale routing before the next refresh (NOT_LEADER answers) is accepted as the statement allows; metadata v0 and FindCoordinator v0 are never negotiated "
                     "(no controller id / no key type at those versions); request encodings themselves belong to C04 (malformed requests are only counted here); the fake answers transaction APIs with default bodies"),
         rule=("case = (brokers with racks and version tables, bootstrap list, controller, topics with leaders, coordinators, auto-create setting, TTL, step history); every 2nd case is built from one of 6 strata "
@@ -267,7 +267,7 @@ CHECKS = {
                     "cut to a prefix, and with the frame size raised to 2^31-1. Every frame is decoded by protocol.ReadResponse in a worker process (RLIMIT_AS 3 GiB, 64 MiB stacks, collector off while decoding, 2 s watchdog); "
                     "a sample also goes through kafka.Transport.RoundTrip against an in-memory broker and, for 19 APIs, through the kafka.Client method of the API (Produce, Fetch with all records read, ListOffsets, Metadata, OffsetCommit/Fetch, FindCoordinator, the group APIs, DescribeGroups, ListGroups, ApiVersions, DeleteTopics, InitProducerID, DeleteGroups) with random bodies and with bodies that answer the request (topic, partition, group as asked, no error codes), so that the client's own post-processing of the decoded arrays is judged too, and the raw SASL token length through RawExchange and a SASL Transport on the v0 handshake path; consumer-protocol values (member metadata, assignments) with every nested length mutated go through protocol.Unmarshal (as Client.JoinGroup / SyncGroup call it) and, inside a well-formed DescribeGroups response, through Client.DescribeGroups, which has readers of its own. "
                     "Oracle: outcome error or decoded message; panic, no return, worker death (out of memory, stack overflow), more than 1 MiB + 1024 x bytes supplied allocated, or bytes consumed beyond the announced frame are violations. "
-                    "Quick enumerates first/last/flexible-boundary/one seeded version per API, thorough all versions with two corpus seeds and more values; thorough adds 3 min of native fuzzing of ReadResponse(api, version, bytes) with the same oracle in-process."),
+                    "Quick enumerates first/last/flexible-boundary/one seeded version per API, thorough all versions with two corpus seeds and more values; thorough adds 3 min of native fuzzing of ReadResponse(api, version, bytes) with the same oracle in-process. The mutated Produce frames also go through Client.RawProduce (entry client-raw)."),
         level_note=("one field at a time (plus the frame size in the 'bigframe' supply mode): combinations of several hostile fields are left to the fuzzer; fields inside checksummed content (record bodies, v0/v1 key/value lengths, v2 record count) are outside the statement and only observed; "
                     "the allocation bound is validated on the unmutated corpus first (must stay below half the bound); a worker death or timeout is re-run alone in a fresh worker with a 10 s watchdog before it counts"),
         rule=("case = (api, version, corpus frame, field of the encoder's field map, hostile value class, splice mode, supply mode, entry point); enumerated product, quick samples versions. "
@@ -319,7 +319,7 @@ CHECKS = {
         technique="property-based testing (rapid) of generated concurrent programs with payload-tagged requests; adversarial response timing from the fake broker; schedule-point yields",
         level_text=("2-8 goroutines share one Conn (or 2-12 share one Transport to 1-3 brokers); every call asks for something only it asks for (a unique timestamp, topic, group, key, record value, byte limit) and the fake broker derives the answer from that tag. "
                     "Responses are delayed, dribbled byte by byte, held back while other calls proceed, cut or dropped; transport calls are cancelled at generated moments, idle connections expire, Conn deadlines fire; "
-                    "schedule points inside waitResponse / doRequest / conn.run add yields. Oracle: every call returns an error or the answer carrying its own tag; produce acknowledgements are checked against the log. Also: requests the Transport splits into sub-requests (first one delayed), the deterministic pattern 'deadline ends while the answer is held, next call on the same route', fetch responses whose records are consumed lazily while other calls run, batches closed early and twice on three Conns used at the same time, a hammer of 6-16 goroutines released together by a spin barrier for hundreds of rounds (windows of a few instructions), a watchdog for calls that never return, and io.ErrNoProgress on a Conn whose responses were all delivered completely counts as a misaligned stream; in a third of the Conn cases a compressed write with a codec that cannot be set up fails first (what it leaves in the shared buffers must not matter). Conn call kind assignment: the opaque bytes a SyncGroup answer carries are kept by the caller as handed out and compared when every call of the case is over (an answer stays the answer of its call whatever the Conn reads later)."),
+                    "schedule points inside waitResponse / doRequest / conn.run add yields. Oracle: every call returns an error or the answer carrying its own tag; produce acknowledgements are checked against the log. Also: requests the Transport splits into sub-requests (first one delayed), the deterministic pattern 'deadline ends while the answer is held, next call on the same route', fetch responses whose records are consumed lazily while other calls run, batches closed early and twice on three Conns used at the same time, a hammer of 6-16 goroutines released together by a spin barrier for hundreds of rounds (windows of a few instructions), a watchdog for calls that never return, and io.ErrNoProgress on a Conn whose responses were all delivered completely counts as a misaligned stream; in a third of the Conn cases a compressed write with a codec that cannot be set up fails first (what it leaves in the shared buffers must not matter). Conn call kind assignment: the opaque bytes a SyncGroup answer carries are kept by the caller as handed out and compared when every call of the case is over (an answer stays the answer of its call whatever the Conn reads later). A batch that was closed with compressed records unread is asked once more after another batch was decompressed (a closed batch delivers nothing)."),
         level_note="interleavings are sampled; a cross-talk that needs a specific interleaving may be missed in one run",
         rule=("case = (mode, goroutines x tagged calls with per-call broker fault and cancellation point, deadlines, schedule-point yields); non-trivial = >= 2 goroutines and at least one fault or cancellation; distinct by (mode, shape, fault multiset, labels)."),
         assumptions=["the fake answers requests of one connection in request order, as Kafka guarantees"],
@@ -362,7 +362,7 @@ CHECKS = {
         level_text=("A ConsumerGroup is driven directly: rounds of Next, Start of functions that wait / return early / linger / are started late, then an ending event (function return, heartbeat error code, dropped heartbeat connection, a heartbeat that is never answered (the generation ends after ConsumerGroupConfig.Timeout), "
                     "coordinator-signalled rebalance, partition count change seen by the watcher, Close, Close while an error is pending), with error codes and dropped connections injected into FindCoordinator/JoinGroup/SyncGroup/OffsetFetch/LeaveGroup "
                     "and yields at the schedule points around Start, function exit and the hand-over to Next. Invariants: Next never returns while a function of the previous generation runs; contexts end within 1 s of the ending event; "
-                    "heartbeats carry the generation's ids, stop with it and keep coming while it lives; Close sends LeaveGroup for the member id of the last successful join; a failed join is not retried before JoinGroupBackoff. Functions may take longer to wind down (350-650 ms) than the group's RebalanceTimeout (300 ms); the hand-over still waits for them."),
+                    "heartbeats carry the generation's ids, stop with it and keep coming while it lives; Close sends LeaveGroup for the member id of the last successful join; a failed join is not retried before JoinGroupBackoff. Functions may take longer to wind down (350-650 ms) than the group's RebalanceTimeout (300 ms); the hand-over still waits for them. Failing JoinGroup / SyncGroup answers may take about as long as JoinGroupBackoff."),
         level_note="time bounds: late-but-happened is inconclusive; violation only for never (4 s + intervals) or > 3 s late; the fake coordinator has no session timers; interleavings are sampled",
         rule=("case = (cluster, intervals, rounds with function specs and ending event, setup fault script, schedule-point yields); non-trivial = >= 2 generations or a generation ended by something other than Close; "
               "distinct by (layout, ending events, fault multiset, labels)."),
@@ -376,7 +376,7 @@ CHECKS = {
         level_text=("Writer: generated writer scenarios (wsim) in which Close is issued while callers run, with calls parked at the schedule points writer.entered / writer.beforeBatch until Close has marked the writer closed, slow / failing brokers, retries and batch timers; "
                     "oracles: Close returns (a hang is confirmed by two identical goroutine dumps), every accepted message was sent and its Completion ran before Close returned, nothing is produced or completed after Close returned, WriteMessages after Close = io.ErrClosedPipe, no library goroutine is left. "
                     "Reader: plain and group readers with a call blocked in FetchMessage / CommitMessages, then Close or context end, against a normal / slow / fetch-stalling / heartbeat-stalling broker, also Close during a rebalance; oracles: bounded Close, LeaveGroup sent, no heartbeat / commit / fetch journalled after Close returned, "
-                    "io.EOF after Close, context error on cancel within 1 s, goroutine and connection census. ConsumerGroup used directly: 1-3 members in the usual Next/Start loop, Close during the join, inside a generation, after a forced rebalance or with an error pending, against coordinator errors and stalls (JoinGroup, Heartbeat, OffsetCommit or LeaveGroup never answered); oracles: bounded Close, Next = ErrGroupClosed afterwards, no group request after Close, goroutine and connection census. Transport: round trips with a stalled response or a black-holed dial return the context's error when the context ends. Reader stratum commit-flood: with interval commits and a coordinator that does not answer OffsetCommit the application goes on committing until the commit queue is full and CommitMessages itself blocks; its context then ends."),
+                    "io.EOF after Close, context error on cancel within 1 s, goroutine and connection census. ConsumerGroup used directly: 1-3 members in the usual Next/Start loop, Close during the join, inside a generation, after a forced rebalance or with an error pending, against coordinator errors and stalls (JoinGroup, Heartbeat, OffsetCommit or LeaveGroup never answered); oracles: bounded Close, Next = ErrGroupClosed afterwards, no group request after Close, goroutine and connection census. Transport: round trips with a stalled response or a black-holed dial return the context's error when the context ends. Reader stratum commit-flood: with interval commits and a coordinator that does not answer OffsetCommit the application goes on committing until the commit queue is full and CommitMessages itself blocks; its context then ends. Reader stratum setoffset-loop: Close while the application keeps calling SetOffset."),
         level_note="interleavings are sampled (schedule points own the known windows, the rest is the Go scheduler); 'bounded' = watchdogs of several seconds, late-but-returned is inconclusive; goroutine census by stack dump",
         rule=("case = (scenario, schedule table, broker behaviour, blocked call, ending event); non-trivial = Close or context end overlapped a call in flight (a caller returned after Close started, a call was parked at a schedule point, or a call was blocked when the event fired); "
               "distinct by the case value."),
